@@ -383,7 +383,7 @@ class C13(Check):
         technique="Lean 4 proof over translator-regenerated schema tables + differential run against the Lean driver + round-trip oracle on the implementation",
     )
     rule = ("obligations: theorems of Props/C13.lean over Gen/SchemaDict.lean. correspondence cases: (model, path) with path in "
-            "{dict, json text, write_json/read_json file, append to empty}; distinct = distinct feature signature of the generated model; "
+            "{dict, json text, write_json/read_json file, append to empty, the same dict object created-from and then appended}; distinct = distinct feature signature of the generated model; "
             "non-trivial = the model has at least one of vertices / several demands / leak / rule with ELSE / source / curve")
     trusted_base = ["translator harness/props/c13.py (ast of from_dict, reflection of to_dict on a populated zoo model)",
                     "Python dict/JSON semantics; element attribute setters (exercised, not modelled)"]
@@ -435,7 +435,15 @@ class C13(Check):
             empty = wntr.network.WaterNetworkModel()
             return wntr.network.to_dict(wntr.network.from_dict(copy.deepcopy(d0), append=empty))
 
-        return [("dict", p_dict), ("json", p_json), ("file", p_file), ("append", p_append)]
+        def p_reuse():
+            # the same dictionary object used twice: create a model from it, then append it to an empty model
+            # ("appending a dictionary to an empty model equals creating the model from it")
+            d = copy.deepcopy(d0)
+            wntr.network.from_dict(d)
+            empty = wntr.network.WaterNetworkModel()
+            return wntr.network.to_dict(wntr.network.from_dict(d, append=empty))
+
+        return [("dict", p_dict), ("json", p_json), ("file", p_file), ("append", p_append), ("reuse", p_reuse)]
 
     def correspondence(self, ctx):
         wntr = vlib.import_wntr()
